@@ -345,6 +345,77 @@ func VerifC04ShortCircuit(v *vrt.T) {
 	v.Reach("end")
 }
 
+// verifRefUnary: -x on int/float/duration, !x on bool; everything else is a type error.
+func verifRefUnary(op ast.TokenType, x verifVal) (verifVal, bool) {
+	switch op {
+	case ast.TokenMinus:
+		switch x.k {
+		case vkInt:
+			return verifVal{k: vkInt, i: -x.i}, true
+		case vkFloat:
+			return verifVal{k: vkFloat, f: -x.f}, true
+		case vkDuration:
+			return verifVal{k: vkDuration, i: -x.i}, true
+		}
+	case ast.TokenNot:
+		if x.k == vkBool {
+			return verifVal{k: vkBool, b: !x.b}, true
+		}
+	}
+	return verifVal{}, false
+}
+
+// VerifC04Unary: `(u "a") op "b"` with u in {-, !}: the value of the typed semantics, an error
+// when the unary or the binary operator does not apply to the operand kinds; evaluation
+// terminates (no unbounded re-specialisation).
+func VerifC04Unary(v *vrt.T) {
+	u := []ast.TokenType{ast.TokenMinus, ast.TokenNot}[v.Choose("unary", 2)]
+	op := verifOps[v.Choose("op", len(verifOps))]
+	nk := v.Bound("kinds", 6)
+	var a verifVal
+	var inner ast.Node
+	if v.Choose("aconst", 2) == 1 {
+		// a literal operand (the expression is then specialised at compile time)
+		switch v.Choose("lit", 5) {
+		case 0:
+			a, inner = verifVal{k: vkInt, i: 3}, &ast.NumberNode{IsInt: true, Int64: 3}
+		case 1:
+			a, inner = verifVal{k: vkFloat, f: 1.5}, &ast.NumberNode{IsFloat: true, Float64: 1.5}
+		case 2:
+			a, inner = verifVal{k: vkString, s: "a"}, &ast.StringNode{Literal: "a"}
+		case 3:
+			a, inner = verifVal{k: vkBool, b: true}, &ast.BoolNode{Bool: true}
+		case 4:
+			a, inner = verifVal{k: vkDuration, i: 1000}, &ast.DurationNode{Dur: 1000}
+		}
+	} else {
+		a = verifSymVal(v, "a", nk)
+		inner = &ast.ReferenceNode{Reference: "a"}
+	}
+	b := verifSymVal(v, "b", nk)
+	n := &ast.BinaryNode{Operator: op, Left: &ast.UnaryNode{Operator: u, Node: inner}, Right: &ast.ReferenceNode{Reference: "b"}}
+	expr, err := NewExpression(n)
+	ua, uok := verifRefUnary(u, a)
+	var want verifVal
+	ok := false
+	if uok {
+		want, ok = verifRefBinary(op, ua, b)
+	}
+	if err != nil {
+		// rejected at compile time: fine when the expression can never have a value
+		v.Assert(!uok, "only ill-typed expressions are rejected at compile time")
+		v.Reach("rejected")
+		return
+	}
+	res, err := expr.Eval(verifScope(a, b))
+	v.Observe("err", err != nil)
+	v.Assert((err == nil) == ok, "error exactly when the typed semantics has no value")
+	if err == nil && ok {
+		v.Assert(verifSame(res, want), "result equals the typed reference value")
+	}
+	v.Reach("end")
+}
+
 // VerifC04ShortCircuitTyped: as above, but the right operand is a comparison on a field that
 // may be missing or of a type the comparison does not accept (a type fault, not an
 // arithmetic one), and the left operand is a reference or a function call.
